@@ -76,6 +76,7 @@ class Pool(object):
         self.alt_pictures = {}  # same pictures coded with other transform parameters (cfg["mix"])
         self.alt_asym = False
         self.fragments = None
+        self.ld_sizes = None
         self._headers = {}
         self._sh_variants = None
         try:
@@ -124,7 +125,20 @@ class Pool(object):
         if self.cfg["frag"]:
             _cf, seq = self._seq(self.cfg["frag"])
             _force_version(seq, 3, False)
-            units = _cut(W.serialise([seq]))
+            fdata = W.serialise([seq])
+            units = _cut(fdata)
+            if not self.hq:
+                # low-delay slices have position-dependent sizes (13.5.3.2):
+                # slice n holds ((n+1)*num)//den - (n*num)//den bytes.  Needed
+                # to tell whether a fragment body still frames when the channel
+                # rewrites its slice offsets (composition rule).
+                from sim import faults as _F
+
+                fm = _F.field_map(fdata)
+                num = [f.value for f in fm.fields if f.name == "slice_bytes_numerator"]
+                den = [f.value for f in fm.fields if f.name == "slice_bytes_denominator"]
+                if num and den and den[0]:
+                    self.ld_sizes = [((n + 1) * num[0]) // den[0] - (n * num[0]) // den[0] for n in range(self.total_slices)]
             pics = []
             for code, b in units:
                 if code in (LD_FRAG, HQ_FRAG):
@@ -290,9 +304,21 @@ def assemble(pool, units):
                 # channel fault on the fragment's slice offsets (the body's
                 # slices stay where they are; a conformant receiver must reject
                 # before reading them)
+                ox, oy = a.x, a.y
                 a.x, a.y = u["xy"][0] & 0xFFFF, u["xy"][1] & 0xFFFF
                 body[8:10] = a.x.to_bytes(2, "big")
                 body[10:12] = a.y.to_bytes(2, "big")
+                if not pool.hq and (a.x, a.y) != (ox, oy):
+                    # composition rule: a low-delay body only frames at slice
+                    # positions whose sizes equal those it was coded for; if the
+                    # rewritten offsets happen to be acceptable, a receiver reads
+                    # the body at the new position
+                    sxn = pool.cfg["sx"]
+                    i0, i1 = oy * sxn + ox, a.y * sxn + a.x
+                    sz = pool.ld_sizes
+                    if sz is None or a.x >= sxn or i1 + a.count > len(sz) or sz[i0 : i0 + a.count] != sz[i1 : i1 + a.count]:
+                        if a.x < sxn and a.y < pool.cfg["sy"]:
+                            misframed = True
             a.code = u.get("code", pool.frag_code)
             a.num = u["num"] & 0xFFFFFFFF
             a.feat = 3
